@@ -645,7 +645,8 @@ def r3_path_discipline(ctx, sym, at):
 
 def r4_merge_both_sides(ctx, sym, at):
     ctx.rule('R4', "merge_paths covers both sides, behaviourally: witness programs in which a name is touched only on "
-                   "the left branch, only on the right branch, on both, or on a nested branch, executed abstractly, "
+                   "the left branch, only on the right branch, on both, on a nested branch, or re-assigned in an enclosing "
+                   "branch while the module path holds an older state (search_parents), executed abstractly, "
                    "give exactly the verdict of the path oracle for the read after the merge (and paths do not leak "
                    "into their siblings)")
     fn = at.core_methods['merge_paths']
@@ -659,6 +660,11 @@ def r4_merge_both_sides(ctx, sym, at):
         'nested-left-partial': [('if', (('if', (A_,), ()),), (A_,)), R_],
         'sibling-isolation': [('if', (A_,), (R_,))],
         'before-and-one-branch': [A_, ('if', (A_,), ()), R_],
+        # the nearest enclosing path's state shadows the module path's (search_parents walks the chain in order)
+        'shadowed-maybe-else-only': [('if', (A_,), ()), ('if', (A_, ('if', (), (A_,)), R_), ())],
+        'shadowed-unset-else-only': [('if', (A_, ('if', (), (A_,)), R_), ())],
+        'shadowed-maybe-left-only': [('if', (A_,), ()), ('if', (A_, ('if', (A_,), ()), R_), ())],
+        'shadowed-depth-3': [('if', (A_,), ()), ('if', (('if', (A_, ('if', (), (A_,)), R_), ()),), ())],
     }
     for name, prog in witnesses.items():
         numbered = number_reads(prog)
@@ -761,6 +767,77 @@ def r6_issue_recording(ctx, sym, at):
                           "program with the offending operator at the same place: the second result has no issues")
 
 
+def r9_fresh_analysis_per_program(ctx, sym):
+    ctx.rule('R9', "tifa_analysis executed abstractly for two different programs on one report: every call of "
+                   "Tifa.process_code asks for a fresh analysis record (the effective `reset` argument - positional, "
+                   "keyword, or the default read from process_code's signature - is true), and process_code, executed "
+                   "with it, replaces self.analysis; otherwise the second program's result carries the first one's "
+                   "issues, which follow none of its own paths")
+    from .. import symexec
+    mod = ctx.repo.module('pedal.tifa.commands')
+    fn = mod.func('tifa_analysis')
+    ctx.analysed_function(mod, fn)
+    vmod = ctx.repo.module('pedal.tifa.tifa_visitor')
+    pc = vmod.func('Tifa.process_code')
+    ctx.analysed_function(vmod, pc)
+    names = [a.arg for a in pc.args.args]
+    if 'reset' in names:
+        pos = names.index('reset') - 1
+        di = names.index('reset') - (len(names) - len(pc.args.defaults))
+        try:
+            default = sym.const(vmod, pc.args.defaults[di]) if di >= 0 else None
+        except KeyError:
+            raise AnalysisError("C09 R9: default of process_code's reset is not a constant")
+    else:
+        pos, default = None, True    # no way left to keep the old record
+    tool = sym.const(mod, ast.parse('TIFA_TOOL_NAME', mode='eval').body)
+    for texts in (('print(a)', 'b = 1\nprint(b)'), ('x = 1', 'y = 2', 'z = 3')):
+        seen = []
+        submission = Obj('submission', main_code=texts[0], main_file='answer.py', line_offsets={})
+        inst = Obj('tifa')
+
+        def process_code(code, *a, **k):
+            eff = k['reset'] if 'reset' in k else (a[pos - 1] if pos is not None and len(a) > pos - 1 >= 0 else default)
+            seen.append((code, eff))
+            return Obj('analysis:%d' % len(seen), success=True)
+        symexec.method(inst, 'process_code', process_code)
+        data = {'analyses': {}, 'instance': inst, 'latest': None}
+        report = Obj('report', submission=submission)
+        symexec.method(report, '__getitem__', lambda k: data if k == tool else None)
+        fd = symexec.new_fd(sym, mod, extra={'MAIN_REPORT': report})
+        raised = None
+        for t in texts:
+            submission.attrs['main_code'] = t
+            _, raised = symexec.run(fd, fn, [], {'report': report}, what='tifa_analysis')
+            if raised is not None:
+                break
+        stale = [c for c, eff in seen if eff is not True and not (eff and not isinstance(eff, Obj))]
+        ctx.check(raised is None and len(seen) == len(texts) and not stale, 'R9',
+                  'tifa_analysis:fresh-record[%d programs]' % len(texts), mod, fn,
+                  "analysing %r on one report: process_code ran %d time(s); without a true `reset` for %r%s" % (
+                      list(texts), len(seen), stale, '' if raised is None else ' (raises %s)' % raised.kind),
+                  "tifa_analysis('print(a)') and then tifa_analysis('b = 1\\nprint(b)') on the same report: the second "
+                  "result still holds the first program's initialization problem")
+    # process_code itself: reset=True replaces the record
+    old = Obj('old-analysis', issues={'x': [1]})
+    me = symexec.self_obj(vmod, 'Tifa', report=Obj('report', submission=None), analysis=old, line_offset=0)
+    symexec.method(me, 'process_ast', lambda *a, **k: None)
+    symexec.method(me, 'reset', lambda *a, **k: None)
+    fd = symexec.new_fd(sym, vmod, calls={
+        'ast.parse': lambda *a, **k: symexec.marker('tree'), 'TifaAnalysis': lambda *a, **k: Obj('new-analysis'),
+        'system_error': lambda *a, **k: Obj('feedback'), 'str': lambda x: 'text',
+        'Location': lambda *a, **k: Obj('location')})
+    try:
+        _, raised = symexec.run(fd, pc, ['x = 1'], {'reset': True} if pos is not None else {}, bound_self=me,
+                                what='Tifa.process_code')
+    except Inconclusive as e:
+        raise AnalysisError("C09 R9: process_code outside the decidable fragment: %s" % e)
+    ctx.check(raised is None and me.attrs.get('analysis') is not old, 'R9', 'process_code:reset-replaces-record', vmod, pc,
+              "process_code(reset=True) keeps the previous analysis record%s" % (
+                  '' if raised is None else ' (raises %s)' % raised.kind),
+              "two programs analysed by one Tifa object share one issues table")
+
+
 def run(ctx):
     sym = Symbols(ctx.repo)
     at = r5_program_table(ctx, sym, ctx.tier)
@@ -769,6 +846,7 @@ def run(ctx):
     r2_issue_dispatch(ctx, sym, at)
     r3_path_discipline(ctx, sym, at)
     r4_merge_both_sides(ctx, sym, at)
+    r9_fresh_analysis_per_program(ctx, sym)
     # R7/R8: "reported at that line" inside a section: the text TIFA is handed is the section's text with nothing lost,
     # and the offset added is the number of lines before it (shared with C17.R1 / C17.R3)
     from .c12 import section_offsets
